@@ -14,13 +14,18 @@ MINE = {"VForeignStore": "a store outside {shared, own personal store, assigned/
 def delivery_probe(chk):
     """a delivery to one recipient changes only that recipient's store (+ shared tables)"""
     base = P.setup_ops()
-    cases = [(P.A, "A"), (P.B, "B"), (P.R1, "R1"), (P.R2, "R2"), ("carol@example.com", "NEW")]
+    cases = [(P.A, "A"), (P.B, "B"), (P.R1, "R1"), (P.R2, "R2"), ("carol@example.com", "NEW"),
+             # addresses that are NOT a listed user or role but resemble one under SQL LIKE / case folding / prefixing:
+             # each is a recipient of its own and must never reach the look-alike's store
+             ("s_les@example.com", "NEW"), ("sale_@example.com", "NEW"), ("%@example.com", "NEW"), ("_____@example.com", "NEW"),
+             ("SALES@example.com", "NEW"), ("Board@example.com", "NEW"), ("al_ce@example.com", "NEW"), ("b%@example.com", "NEW"),
+             ("sales@example.co_", "NEW"), ("sales@EXAMPLE.com", "NEW"), ("sales+x@example.com", "NEW"), ("xsales@example.com", "NEW")]
     scen = []
     for rcpt, _ in cases:
         ops = list(base) + [{"op": "lmtp_open", "conn": "l2"}, {"op": "send", "conn": "l2", "data": "LHLO x\r\n", "until": "lmtp:1"}]
         ops += P.lmtp_deliver("l2", rcpt, P.msg("MKPROBE", rcpt)) + [{"op": "dump"}]
         scen.append(ops)
-    res = C.run_many(scen, workers=5)
+    res = C.run_many(scen, workers=8)
     nb = len(base)
     n = 0
     for (rcpt, who), r in zip(cases, res):
@@ -36,6 +41,17 @@ def delivery_probe(chk):
             want = "role_db_%d" % roles.get(rcpt, -1)
         extra = [c for c in changed if c not in ("shared", want)]
         n += 1
+        reply = ""
+        for o in reversed(r["obs"][nb:-1]):
+            if "recv" in o:
+                reply = o["recv"]
+                break
+        if not reply.startswith("2"):
+            # refused: nothing but the shared tables may change
+            if [c for c in changed if c != "shared"]:
+                chk.violation("a delivery addressed to %s was refused (%s) but changed stores %s" % (rcpt, reply.strip()[:80], changed),
+                              {"suite": "delivery", "rcpt": rcpt, "changed": changed, "reply": reply})
+            continue
         if extra or want not in changed:
             chk.violation("a delivery addressed to %s changed stores %s (expected only %s and the shared tables)" % (rcpt, changed, want),
                           {"suite": "delivery", "rcpt": rcpt, "changed": changed, "expected": want})
